@@ -11,6 +11,7 @@ import (
 	"time"
 
 	"verif/sim/common"
+	"verif/sim/instr"
 	"verif/sim/simrt"
 	"verif/sim/workerlib"
 )
@@ -170,6 +171,8 @@ type Replay struct {
 	RaceReport string                  `json:"race_report,omitempty"`
 	Ref        *refViolation           `json:"reference_disagreement,omitempty"`
 	Minimised  map[string]interface{}  `json:"minimisation,omitempty"`
+	Variant    string                  `json:"variant,omitempty"`
+	Knobs      []instr.Knob            `json:"knobs_shrunk_to_2,omitempty"`
 	Readable   []string                `json:"readable"`
 	HowTo      string                  `json:"how_to_replay"`
 }
@@ -268,8 +271,12 @@ func refreshExpected(e *Env, session []workerlib.ExplicitRun) error {
 	return nil
 }
 
+// curVariant is the worker variant explicit sessions run on (set while a
+// violation found on the knob-shrunk build is confirmed / minimised / replayed).
+var curVariant string
+
 func runExplicit(e *Env, session []workerlib.ExplicitRun) *ProcResult {
-	ses := &workerlib.Session{Mode: "explicit", Explicit: session}
+	ses := &workerlib.Session{Mode: "explicit", Explicit: session, Variant: curVariant}
 	return runWorker(e, ses, 2, 5*time.Minute)
 }
 
@@ -349,7 +356,8 @@ func sessionSize(s []workerlib.ExplicitRun) (runs, tasks, calls, segs, bytes int
 func (m *minimiser) minimise(s []workerlib.ExplicitRun) []workerlib.ExplicitRun {
 	cur := cloneSession(s)
 	changed := true
-	for round := 0; changed && round < 6; round++ {
+	over := func() bool { return time.Since(m.start) > m.limit }
+	for round := 0; changed && round < 6 && !over(); round++ {
 		changed = false
 		// 1. drop runs (keep the last one: it is where the violation showed)
 		for len(cur) > 1 {
@@ -488,35 +496,35 @@ func (m *minimiser) minimise(s []workerlib.ExplicitRun) []workerlib.ExplicitRun 
 				}
 			}
 		}
-		// 6. shorten inputs (needs fresh reference values)
+		// 6. shorten inputs (the changed call needs a fresh reference value)
 		for ri := range cur {
 			for ti := range cur[ri].Tasks {
 				for ci := range cur[ri].Tasks[ti] {
-					for again := true; again; {
+					for again := true; again && !over(); {
 						again = false
 						in, _ := common.UnB64(cur[ri].Tasks[ti][ci].In)
 						if len(in) <= 1 {
 							break
 						}
 						var cands [][]workerlib.ExplicitRun
-						for _, cut := range cuts(in) {
+						cs := cuts(in)
+						exps := make([]string, len(cs))
+						errs := make([]error, len(cs))
+						api := int(cur[ri].Tasks[ti][ci].API)
+						parallel(len(cs), 16, func(i int) { exps[i], errs[i] = refOne(m.e, api, cs[i]) })
+						for i, cut := range cs {
+							if errs[i] != nil {
+								continue
+							}
 							c := cloneSession(cur)
 							c[ri].Tasks[ti][ci].In = common.B64(cut)
+							c[ri].Tasks[ti][ci].Exp = common.B64(exps[i])
 							c[ri].Tasks[ti][ci].Idx = -1
 							cands = append(cands, c)
 						}
-						ok := make([]bool, len(cands))
-						parallel(len(cands), 16, func(i int) {
-							if refreshExpected(m.e, cands[i]) == nil {
-								ok[i] = m.ok(cands[i])
-							}
-						})
-						for i := range cands {
-							if ok[i] {
-								cur = cands[i]
-								changed, again = true, true
-								break
-							}
+						if k := m.tryAll(cands); k >= 0 {
+							cur = cands[k]
+							changed, again = true, true
 						}
 					}
 				}
@@ -615,6 +623,8 @@ func explicitPrefix(e *Env, fv *foundViolation) []workerlib.ExplicitRun {
 // processViolation confirms, minimises and writes the replay file. It returns
 // the path, or "" if the violation could not be reproduced (harness problem).
 func processViolation(e *Env, c *Check, fv *foundViolation, limit time.Duration) (string, string) {
+	curVariant = fv.Proc.Session.Variant
+	defer func() { curVariant = "" }()
 	sig := violSig(fv.V)
 	pickRaceSig := func(pr *ProcResult) string {
 		sg, _, _ := sigsOf(e, pr)
@@ -668,6 +678,10 @@ func processViolation(e *Env, c *Check, fv *foundViolation, limit time.Duration)
 	}
 	rp := &Replay{Property: "C05", Kind: fv.V.Kind, Signature: sig, Seed: c.Seed, RunSeed: fv.V.Seed, Stage: fv.Stage,
 		TreeDigest: e.TreeDig, SiteDigest: e.Report.SiteDigest, Session: small, HowTo: "cd /verif && ./run C05 --replay <this file>"}
+	if curVariant == "small" {
+		rp.Variant = "small"
+		rp.Knobs = e.Shrunk
+	}
 	rp.Minimised = map[string]interface{}{
 		"before":         map[string]int{"runs": r0, "tasks": t0, "calls": c0, "schedule_segments": s0, "input_bytes": b0},
 		"after":          map[string]int{"runs": r1, "tasks": t1, "calls": c1, "schedule_segments": s1, "input_bytes": b1},
@@ -703,6 +717,13 @@ func processViolation(e *Env, c *Check, fv *foundViolation, limit time.Duration)
 		rp.Summary = "result differs from the reference result of the same input: " + rp.Violation.Detail
 	default:
 		rp.Summary = fv.V.Kind + ": " + fv.V.Detail
+	}
+	if rp.Variant == "small" {
+		var ks []string
+		for _, k := range e.Shrunk {
+			ks = append(ks, fmt.Sprintf("%s=%d->2 (%s:%d)", k.Name, k.Value, k.File, k.Line))
+		}
+		rp.Summary += " [configuration fault: capacity constants shrunk: " + strings.Join(ks, ", ") + "; sequential results of the whole corpus are unchanged by the shrink]"
 	}
 	return writeReplay(e, rp), sig
 }
